@@ -117,12 +117,11 @@ class RawLinkLayer(LinkLayer):
                 # The socket was closed: stop receiving.
                 break
             try:
-                if m[0:6] == self.mac_address:
-                    self.receive_callback(m[14:])
-                elif (
-                    m[0:6] == b"\xff\xff\xff\xff\xff\xff"
-                    and m[6:12] != self.mac_address
-                ):
+                if m[6:12] == self.mac_address:
+                    # Sent by this station itself (echo, or a frame forged with our own
+                    # source address): ignored whatever the destination.
+                    continue
+                if m[0:6] in (self.mac_address, b"\xff\xff\xff\xff\xff\xff"):
                     self.receive_callback(m[14:])
             except Exception as e:  # pylint: disable=broad-except
                 # A malformed or unsupported frame must never stop the receive loop, and neither
